@@ -1,7 +1,194 @@
 import IbModel.Util.Wire
-/-! Driver handlers for C17 (request kinds served for that property). -/
+import IbModel.Model.Validation
+import IbModel.Generated.Tables
+/-!
+Driver handlers for C17 (see `harness/src/c17.rs` for the request grammar):
+`VALIDATE <skip|log|ff> <rec|kv> <mode|short> <c0|c1> <seq|par:N> <rows>`, `COMBINE <results>`,
+`VPIPE <skip|log|ff> <c0|c1> <seq|par:N> <steps> <rows>`.
+-/
 namespace IB.D17
+open IB.Wire IB.Validation
 
-def handlers : List (String × (List String → String)) := []
+/-- the harness' table-driven record: carries its own verdict -/
+structure Rec where
+  id : Int
+  errs : VResult Nat
+
+def Rec.validate (r : Rec) : VResult Nat := r.errs
+
+def digits (cs : List Nat) : String := String.join (cs.map toString)
+
+def renderSpec : VResult Nat → String
+  | none => "V"
+  | some cs => "E" ++ digits cs
+
+def renderRec (r : Rec) : String := toString r.id ++ ":" ++ renderSpec r.errs
+def renderKv (kv : Int × Rec) : String := toString kv.1 ++ "=" ++ renderRec kv.2
+
+def digit? (c : Char) : Option Nat :=
+  if '0' ≤ c ∧ c ≤ '9' then some (c.toNat - '0'.toNat) else none
+
+def spec? (s : String) : Option (VResult Nat) :=
+  match s.toList with
+  | ['V'] => some none
+  | 'E' :: ds => (ds.mapM digit?).map some
+  | _ => none
+
+def rec? (s : String) : Option Rec :=
+  match s.splitOn ":" with
+  | [i, sp] => do pure ⟨← parseInt? i, ← spec? sp⟩
+  | _ => none
+
+def kv? (s : String) : Option (Int × Rec) :=
+  match s.splitOn "=" with
+  | [k, r] => do pure (← parseInt? k, ← rec? r)
+  | _ => none
+
+def listOf? {β : Type} (one : String → Option β) (s : String) : Option (List β) :=
+  if s == "-" then some [] else (s.splitOn ",").mapM one
+
+def mode? : String → Option Mode
+  | "skip" => some .skipInvalid
+  | "log" => some .logAndContinue
+  | "ff" => some .failFast
+  | _ => none
+
+def coll? : String → Option Bool
+  | "c0" => some false
+  | "c1" => some true
+  | _ => none
+
+/-- `none` = sequential, `some n` = parallel with `Some(n)` partitions -/
+def exec? (s : String) : Option (Option Nat) :=
+  if s == "seq" then some none
+  else match s.splitOn ":" with
+    | ["par", n] => (parseNat? n).map some
+    | _ => none
+
+def insertStr (x : String) : List String → List String
+  | [] => [x]
+  | y :: ys => if x < y then x :: y :: ys else y :: insertStr x ys
+
+def sortStr (l : List String) : List String := l.foldr insertStr []
+
+def joinOrDash (l : List String) : String := if l.isEmpty then "-" else ",".intercalate l
+
+def renderEntry (e : RecordError Nat) : String :=
+  (e.recordId.getD "none") ++ "/E" ++ digits e.errors
+
+def renderRun {α : Type} (render : α → String) (seq : Bool) (fullPanic : Bool) (r : Run α Nat) : String :=
+  match r.output with
+  | some kept =>
+    "OK kept=" ++ joinOrDash (kept.map render) ++ " log=" ++ joinOrDash (sortStr (r.collector.map renderEntry))
+  | none =>
+    if seq && fullPanic then
+      match r.panics with
+      | [(i, es)] => "PANIC at=" ++ toString i ++ ":E" ++ digits es
+      | _ => "BAD-OP"
+    else "PANIC"
+
+def run {α : Type} (op : List α → Outcome α Nat) (exec : Option Nat) (rows : List α) : Run α Nat :=
+  match exec with
+  | none => runSeq op rows
+  | some n => runPar op n rows
+
+/-- which (mode, shape, api, collector) combinations the public builders offer -/
+def apiOk (mode : Mode) (keyed short coll : Bool) : Bool :=
+  if short then !coll && (mode == .skipInvalid || (mode == .failFast && !keyed)) else true
+
+def handleValidate : List String → String
+  | [m, shape, api, c, e, rows] =>
+    match mode? m, coll? c, exec? e with
+    | some mode, some coll, some exec =>
+      let short? : Option Bool := if api == "short" then some true else if api == "mode" then some false else none
+      match short?, shape with
+      | some short, "rec" =>
+        if !apiOk mode false short coll then "BAD-OP" else
+        match listOf? rec? rows with
+        | some rs => renderRun renderRec exec.isNone true (run (validateOp Rec.validate mode coll) exec rs)
+        | none => "BAD-OP"
+      | some short, "kv" =>
+        if !apiOk mode true short coll then "BAD-OP" else
+        match listOf? kv? rows with
+        | some rs => renderRun renderKv exec.isNone true (run (validateValuesOp Rec.validate mode coll) exec rs)
+        | none => "BAD-OP"
+      | _, _ => "BAD-OP"
+    | _, _, _ => "BAD-OP"
+  | _ => "BAD-OP"
+
+def handleCombine : List String → String
+  | [parts] =>
+    match listOf? spec? parts with
+    | some rs =>
+      match combineValidations rs with
+      | none => "OK"
+      | some es => "ERR " ++ (if es.isEmpty then "-" else digits es)
+    | none => "BAD-OP"
+  | _ => "BAD-OP"
+
+/-! ### `VPIPE`: a keyed block of value steps around validators, through the planner's reorder pass -/
+
+inductive Step
+  | inc | heal | odd | val
+  deriving DecidableEq
+
+def step? : String → Option Step
+  | "inc" => some .inc
+  | "heal" => some .heal
+  | "odd" => some .odd
+  | "val" => some .val
+  | _ => none
+
+def lookupFlags (table : List (String × Bool × Bool × Bool × Nat)) (name : String) : Option Flags :=
+  (table.find? (fun r => r.1 == name)).map flagsOfRow
+
+def modeTok : Mode → String
+  | .skipInvalid => "skip"
+  | .logAndContinue => "log"
+  | .failFast => "ff"
+
+/-- flags of each step, as dumped from the running code -/
+def stepFlags? (mode : Mode) (coll : Bool) : Step → Option Flags
+  | .inc | .heal => lookupFlags IB.Generated.valueStepFlags "map_values"
+  | .odd => lookupFlags IB.Generated.valueStepFlags "filter_values"
+  | .val => lookupFlags IB.Generated.validateOpFlags
+      ("validate_values_with_mode:" ++ modeTok mode ++ ":" ++ (if coll then "c1" else "c0"))
+
+def incRec (r : Rec) : Rec := ⟨r.id, r.errs.map (fun cs => cs.map (fun c => (c + 1) % 10))⟩
+def healRec (r : Rec) : Rec :=
+  match r.errs with
+  | some cs => if cs.all (fun c => c % 2 == 0) then ⟨r.id, none⟩ else r
+  | none => r
+def oddRec (r : Rec) : Bool := r.id % 2 != 0
+
+/-- `ops.iter().fold(p, |acc, op| op.apply(acc))` on one partition; a panicking validator ends the partition -/
+def applySteps (mode : Mode) (coll : Bool) : List Step → Outcome (Int × Rec) Nat → Outcome (Int × Rec) Nat
+  | [], st => st
+  | s :: rest, st =>
+    if st.panic.isSome then st else
+    match s with
+    | .inc => applySteps mode coll rest { st with valid := st.valid.map (fun kv => (kv.1, incRec kv.2)) }
+    | .heal => applySteps mode coll rest { st with valid := st.valid.map (fun kv => (kv.1, healRec kv.2)) }
+    | .odd => applySteps mode coll rest { st with valid := st.valid.filter (fun kv => oddRec kv.2) }
+    | .val =>
+      let o := validateValuesOp Rec.validate mode coll st.valid
+      applySteps mode coll rest ⟨o.valid, st.pushes ++ o.pushes, o.panic⟩
+
+def handleVpipe : List String → String
+  | [m, c, e, steps, rows] =>
+    match mode? m, coll? c, exec? e, (steps.splitOn "+").mapM step?, listOf? kv? rows with
+    | some mode, some coll, some exec, some steps, some rs =>
+      match steps.mapM (fun s => (stepFlags? mode coll s).map (fun f => (s, f))) with
+      | some tagged =>
+        -- the planner fuses the adjacent stateless nodes into one block and runs its reorder pass on it
+        let planned := (reorderBlock (fun (sf : Step × Flags) => sf.2) tagged).map (·.1)
+        renderRun renderKv exec.isNone false
+          (run (fun part => applySteps mode coll planned ⟨part, [], none⟩) exec rs)
+      | none => "BAD-OP"
+    | _, _, _, _, _ => "BAD-OP"
+  | _ => "BAD-OP"
+
+def handlers : List (String × (List String → String)) :=
+  [("VALIDATE", handleValidate), ("COMBINE", handleCombine), ("VPIPE", handleVpipe)]
 
 end IB.D17
